@@ -359,7 +359,7 @@ class Gen:
             if tiled:
                 if abs(st) != 1 and not self.flags["tileInnerScaled"]:
                     sp, cnt, st = "n:%d" % cnt, cnt, 1      # F25: @tile on a stepped loop skips iterations
-                sp += ":t%d" % r.choice([1, 2, 3, 4, 8])
+                sp += ":t%d" % r.choice([1, 2, 3, 8])
             specs.append(sp)
             total *= max(cnt, 1)
         if total > 600:
@@ -532,7 +532,8 @@ def main(argv):
         n = 14 if ck.tier == "quick" else 400
         hs = list(CORPUS)
         for i in range(n):
-            for kind in ("array", "array", "range", "loop", "float"):
+            # forLoop kernels include <occa.hpp> and nearly every structure is a new kernel: fewer of them
+            for kind in ("array", "array", "range", "float") + (("loop",) if i % 2 == 0 else ()):
                 hs.append(gen_history(ck.rng, flags, big1024, kind))
     ck.correspond(hb, db, hs, label="functional", timeout=7200, env=env,
                   ubsan_is_violation=r"functional/|loops/|typelessArray|array\.hpp|range\.")
